@@ -18,7 +18,7 @@ import zlib
 
 import numpy as np
 
-from .. import core, embed, lat, tlaval
+from .. import core, embed, fld, lat, tlaval
 from ..core import Part
 
 META = dict(
@@ -103,7 +103,7 @@ def make_field(df, mesh, m, nv, mseed):
     arr = np.stack([flat[:, c].reshape(tuple(m["n"]), order="F") for c in range(nv)], axis=-1).astype(float)
     rs = np.random.RandomState(mseed % (2**31))
     valid = rs.rand(*m["n"]) < 0.6
-    return df.Field(mesh, nvdim=nv, value=arr, valid=valid), arr, valid
+    return fld.lived(df.Field(mesh, nvdim=nv, value=arr, valid=valid), int(np.sum(mesh.n)) + nv + int(np.sum(valid))), arr, valid
 
 
 def build(df, case, emb):
